@@ -182,7 +182,10 @@ where
   /// ensuring that the returned `Entry` has exclusive access.
   pub async fn entry(&self, key: K) -> AsyncEntry<'_, K, V, H> {
     let shard = self.shared.store.get_shard(&key);
-    let guard = shard.map.write_async().await;
+    let mut guard = shard.map.write_async().await;
+
+    // An expired entry that has not been collected yet counts as absent.
+    self.shared.discard_if_expired(shard, &mut guard, &key);
 
     if guard.contains_key(&key) {
       AsyncEntry::Occupied(AsyncOccupiedEntry {
